@@ -8,6 +8,7 @@
 from pymtl3.passes.backends.generic.behavioral.BehavioralTranslatorL3 import (
     BehavioralTranslatorL3,
 )
+from pymtl3.passes.rtlir import BehavioralRTLIR as bir
 from pymtl3.passes.rtlir import RTLIRDataType as rdt
 from pymtl3.passes.rtlir import RTLIRType as rt
 
@@ -74,7 +75,12 @@ class BehavioralRTLIRToVVisitorL3( BehavioralRTLIRToVVisitorL2 ):
             # format( node.attr, node.value ))
 
       if isinstance( node.value.Type.get_dtype(), rdt.Struct ):
-        value = s.visit( node.value )
+        if isinstance( node.value, bir.FreeVar ):
+          # A struct constant is a localparam of the struct type: select
+          # the member of the parameter, not of a size cast of it
+          value = f"__const__{node.value.name}"
+        else:
+          value = s.visit( node.value )
         attr = node.attr
         s.check_res( node, attr )
         dtype = node.Type.get_dtype()
